@@ -466,8 +466,15 @@ def _get_comp_cls_media(comp_cls: Type["Component"]) -> Any:
             #
             # However, the `__add__` converts our `media_cls` to Django's Media class.
             # So we also have to convert it back to `media_cls`.
+            #
+            # NOTE: We must keep the individual lists (`_js_lists` / `_css_lists`) as they were declared.
+            # If we flattened them with `merged_media._js` at every level, the arbitrary order chosen for
+            # unrelated files would become a constraint for the next merge, and Django could no longer
+            # honour the order declared in the remaining classes (and would warn about a false conflict).
             merged_media = media + base_media
-            media = media_cls(js=merged_media._js, css=merged_media._css)
+            media = media_cls()
+            media._css_lists = merged_media._css_lists
+            media._js_lists = merged_media._js_lists
 
         # Lastly, cache the merged-up Media, so we don't have to search further up the MRO the next time
         media_cache[curr_cls] = media
